@@ -38,7 +38,7 @@ Prod == [
   rnge  |-> Bin(200, "EndExclusiveRange", "..<"), rngx |-> Bin(200, "ExclusiveRange", ">..<"),
   pair  |-> [ar |-> 2, kind |-> "bin", p |-> 210, r2l |-> TRUE, d |-> "Pair", txt |-> "="],
   lst   |-> [ar |-> 2, kind |-> "list", p |-> 220, r2l |-> FALSE, d |-> "List", txt |-> ""],
-  cat   |-> Bin(240, "Concatenation", "<>"),
+  part  |-> Bin(230, "PartialApply", "~"),       cat  |-> Bin(240, "Concatenation", "<>"),
   lt    |-> Bin(300, "LessThan", "<"),           le  |-> Bin(300, "LessThanOrEqual", "<="),
   gt    |-> Bin(300, "GreaterThan", ">"),        ge  |-> Bin(300, "GreaterThanOrEqual", ">="),
   eq    |-> Bin(400, "Equality", "=="),          ne  |-> Bin(400, "Inequality", "!="),       tyeq |-> Bin(400, "TypeEqual", "#="),
